@@ -267,6 +267,8 @@ def _driver_class(sim):
             environ['werkzeug.socket'] = conn.sock
             if getattr(conn, 'accept_fails', False):
                 conn.send_fails = True      # gone before the handshake answer
+            if getattr(conn, 'accept_delay', 0):
+                vsched.vsleep(sim.sched, conn.accept_delay)
             try:
                 return super().__call__(environ, start_response)
             finally:
